@@ -27,6 +27,7 @@ import time
 from .. import env
 from ..rec import Rec, stable_hash
 import copy
+from collections import Counter
 
 LEVEL = 'exploration'
 RULE = (
@@ -66,13 +67,14 @@ def _t(data, labels=None, ints=()):
             'index_kind': 'scripted', 'ints': list(ints)}
 
 
-def _sp(real=(), pos=(), key=(), av=(), group=None, keysets=None):
+def _sp(real=(), pos=(), key=(), av=(), group=None, keysets=None, special=None):
     from ..gen import c13_ops
 
     sp = c13_ops.TableSpace(random.Random(0))
     sp.real, sp.pos, sp.key, sp.av = list(real), list(pos), list(key), list(av)
     sp.keysets = dict(keysets or {})
     sp.group = group
+    sp.special = dict(special or {})
     sp.betas = {'b_0': [0.5, 0]}
     return sp
 
@@ -158,6 +160,24 @@ DIRECTED = {
         [{'op': 'sample', 'size': 12}, {'op': 'adopt', 'which': 0}, {'op': 'scale_column', 'column': 'x', 'scale': 10},
          {'op': 'split', 'k': 3, 'groups': None, 'on': 0}, {'op': 'adopt', 'which': 0}, {'op': 'scale_column', 'column': 'p', 'scale': 2},
          {'op': 'scale_column', 'column': 'k', 'scale': 2}, {'op': 'scale_column', 'column': 'x', 'scale': 0.5, 'on': 0}]),
+    # values that are close but not equal: large neighbouring codes, nearly equal floats, (almost) zero
+    'close-values-are-different-values': lambda: (
+        _t({'code': [1200001, 1200002, 1200007, 1200001, 1200002, 1200003, 1200001, 1200007], 'near': [52000.0, 52000.4, 52000.5, 52000.4, 52000.0, 52000.5, 52000.5, 52000.4],
+            'tiny': [0.0, -0.0, 1e-9, -1e-9, 3e-9, 1e-12, 0.0, 1e-300], 'x': [1.5, -2, 1.5, 0.5, 4, 3, -1, 3], 'p': [1, 2, 1, 1, 1, 3, 2, 3],
+            'k': [1, 2, 3, 1, 2, 3, 1, 2], 'av': [1, 0, 1, 1, 1, 0, 1, 1]}, ints=['code', 'k', 'av']),
+        _sp(real=['x'], pos=['p'], key=['k'], av=['av'], keysets={'k': [1, 2, 3]}, special={'code': 'bigcode', 'near': 'nearfloat', 'tiny': 'nearzero'}),
+        [{'op': 'count', 'column': 'code', 'value': 1200001.0, 'asked': 'present'}, {'op': 'count', 'column': 'code', 'value': 1200004.0, 'asked': 'close'},
+         {'op': 'count', 'column': 'near', 'value': 52000.4, 'asked': 'present'}, {'op': 'count', 'column': 'near', 'value': 52000.45, 'asked': 'close'},
+         {'op': 'count', 'column': 'tiny', 'value': 0.0, 'asked': 'present'}, {'op': 'count', 'column': 'tiny', 'value': 2e-9, 'asked': 'close'},
+         {'op': 'segmentation', 'column': 'near', 'keys': [52000.0, 52000.4, 52000.5], 'variant': 'exact'},
+         {'op': 'segmentation', 'column': 'code', 'keys': [1200001, 1200002, 1200003, 1200007, 1200004], 'variant': 'extra_close', 'int_keys': True},
+         {'op': 'split', 'k': 3, 'groups': 'near'}, {'op': 'split', 'k': 4, 'groups': 'code'},
+         {'op': 'add_column', 'name': 'Xnew', 'ast': ['sub', ['var', 'near'], ['num', 52000.4]], 'shared': [], 'exact': True},
+         {'op': 'define_variable', 'name': 'a_new', 'ast': ['mul', ['var', 'tiny'], ['num', 1e10]], 'shared': [], 'exact': True},
+         {'op': 'remove', 'ast': ['eq', ['var', 'code'], ['num', 1200002.0]], 'shared': [], 'exact': True},
+         {'op': 'remove', 'ast': ['mul', ['lt', ['var', 'tiny'], ['num', 0.0]], ['var', 'tiny']], 'shared': [], 'exact': True},
+         {'op': 'scale_column', 'column': 'near', 'scale': 1e-3}, {'op': 'count', 'column': 'near', 'value': 52.0004, 'asked': 'close'},
+         {'op': 'scale_column', 'column': 'code', 'scale': 3}, {'op': 'count', 'column': 'code', 'value': 3600003.0, 'asked': 'present'}]),
     'shuffled-labels-bootstrap': lambda: (
         _t(_PANEL, labels=[9, 3, 4, 0, 7, 1, 8, 2, 6, 5], ints=['Person', 'k', 'av']), _panel_sp(),
         [{'op': 'sample', 'size': 40}, {'op': 'remove', **_eq('k', 3)}, {'op': 'sample', 'size': 40},
@@ -419,7 +439,43 @@ def run_case(case):
             raise _Stop()
         return True, res
 
+    def leaf_magnitude(node, data):
+        if not isinstance(node, list):
+            return 0.0
+        if node and node[0] == 'var':
+            return max((abs(v) for v in data[node[1]]), default=0.0)
+        if node and node[0] == 'num':
+            return abs(float(node[1]))
+        return max((leaf_magnitude(x, data) for x in node), default=0.0)
+
+    def tiny_literal(node):
+        """a literal below ~1e-290: the engine reads literals with std::stod, which refuses subnormal numbers
+        ("IndexError: stod"); an engine input-domain limit that is not C13's subject"""
+        if not isinstance(node, list):
+            return False
+        if node and node[0] == 'num':
+            return 0 < abs(float(node[1])) < 1e-290
+        return any(tiny_literal(x) for x in node)
+
     def reference(d, cond=False):
+        if d.get('exact') and tiny_literal(d['ast']):
+            rec.c('formula_rejected_subnormal_literal')
+            return None
+        if d.get('exact'):
+            # table values, literals and single IEEE operations: no conditioning filter is needed (and the filter's
+            # margins would reject exactly the close values this workload is about); judged with exact equality
+            data = state['shadow'].data()
+            try:
+                v, _ = evalast.evaluate(d['ast'], data, bv, [])
+            except (evalast.OutOfDomain, KeyError, FloatingPointError, OverflowError, ZeroDivisionError):
+                rec.c('formula_rejected_domain')
+                return None
+            v = np.asarray(v, dtype=float)
+            if not np.all(np.isfinite(v)) or max(leaf_magnitude(d['ast'], data), float(np.max(np.abs(v)))) > c13_ops.MAXMAG:
+                rec.c('formula_rejected_magnitude')
+                return None
+            rec.c('exact_formula_on_special_values')
+            return v
         j = evalast.judge(d['ast'], state['shadow'].data(), bv, d.get('shared') or [])
         if not j['ok']:
             rec.c('formula_rejected_' + j['reason'].split(':')[0])
@@ -464,6 +520,8 @@ def run_case(case):
             rec.c('remove_deleting_' + ('none' if k == 0 else 'all' if s.n() == 0 else 'some'))
             if np.any(ref < 0):
                 rec.c('remove_condition_with_negative_values')
+            if np.any((np.abs(ref) < 1e-6) & (ref != 0)):
+                rec.c('remove_condition_with_tiny_nonzero_values')
             if k:
                 state['removed'] = True
                 if s.panel is not None:
@@ -476,7 +534,7 @@ def run_case(case):
                 return False
             e = real_expression(d)
             ops = exprs.ops_in(d['ast'], d.get('shared') or [])
-            mon.EXPECT['values'] = {'ref': [float(x) for x in ref], 'tol': _tol(ops), 'column': d.get('name') if op != 'values' else None,
+            mon.EXPECT['values'] = {'ref': [float(x) for x in ref], 'tol': (0.0, 0.0) if d.get('exact') else _tol(ops), 'column': d.get('name') if op != 'values' else None,
                                     'expression_id': id(e) if op == 'values' else None}
             if op == 'values':
                 call(op, lambda: D.values_from_database(e))
@@ -498,7 +556,7 @@ def run_case(case):
                     raise _Stop()
                 s.add_column(name, stored)  # verified within tolerance by the monitor: adopt it (no drift)
                 used_names.add(name)
-                c13_ops.after_add(sp, name, stored)
+                c13_ops.after_add(sp, name, stored, exact=bool(d.get('exact')))
                 if state['removed']:
                     rec.c('add_column_after_rows_were_removed')
         elif op == 'scale_column':
@@ -628,9 +686,40 @@ def run_case(case):
                 rec.ev()
                 rec.c('flat_identical_' + ('auto' if ident is None else 'declared'))
                 monitors(op)
+        elif op == 'segmentation':
+            from biogeme.segmentation import DiscreteSegmentationTuple
+
+            c = d['column']
+            keys = [int(k) if d.get('int_keys') and float(k).is_integer() and abs(k) < 2 ** 53 else k for k in d['keys']]
+            held = Counter(s.col(c))
+            matches = set(float(k) for k in keys) == set(held)
+            mapping = {k: f'segment_{i}' for i, k in enumerate(keys)}
+            rec.c('segmentation_mapping_' + d['variant'])
+            if c in sp.special:
+                rec.c('segmentation_on_special_values')
+            try:
+                res = D.check_segmentation(DiscreteSegmentationTuple(c, mapping))
+                refused = False
+            except BiogemeError:
+                refused = True
+                mon.EXPECT['_refused'] = True
+            except BaseException as e:  # noqa
+                viol(f'{op}-raises-{type(e).__name__}', f'check_segmentation raised {type(e).__name__}: {str(e)[:300]}')
+                raise _Stop()
+            rec.ev()
+            said = monitors(op)
+            if refused and matches:
+                viol('segmentation-refuses-the-values-of-the-column', f'mapping keys {keys} are exactly the values of column {c} but were refused')
+            elif not refused and not matches and not said:
+                absent = [k for k in keys if float(k) not in held]
+                if absent:  # (a mapping that merely misses a value is a validation matter, not a counting one)
+                    viol('segmentation-counts-differ', f'value(s) {absent} are not in column {c} but were given a segment count: {res}')
         elif op == 'count':
             ok, res = call(op, lambda: D.count(d['column'], d['value']))
             rec.ev()
+            rec.c('count_value_' + d.get('asked', 'present'))
+            if d['column'] in sp.special:
+                rec.c('count_on_special_values')
             if not monitors(op) and int(res) != s.count(d['column'], d['value']):
                 viol('count-differs', f'count({d["column"]!r}, {d["value"]}) = {res}, shadow table says {s.count(d["column"], d["value"])}')
                 raise _Stop()
@@ -711,10 +800,10 @@ def run_case(case):
 
 
 OPS = ['remove', 'add_column', 'define_variable', 'values', 'scale_column', 'panel', 'split', 'sample', 'sample_map', 'extract_rows',
-       'flat', 'count', 'dump']
+       'flat', 'count', 'dump', 'segmentation']
 MONITORS = ['remove', 'remove_with_reference_condition', 'add_column', 'add_column_with_reference_values', 'define_variable',
             'values_from_database', 'values_from_database_with_reference_values', 'scale_column', 'split', 'split_with_groups', 'sample_with_replacement',
-            'sample_individual_map_with_replacement', 'extract_rows', 'generate_flat_panel_dataframe', 'count', 'panel']
+            'sample_individual_map_with_replacement', 'extract_rows', 'generate_flat_panel_dataframe', 'count', 'check_segmentation', 'panel']
 
 
 def finalize(cov, tier):
@@ -731,7 +820,9 @@ def finalize(cov, tier):
     for k in ('other_database_checked_after_operation', 'returned_frame_checked_after_operation', 'subject_switched_to_another_database_of_the_sequence',
               'sequence_continues_on_database_built_from_returned_frame', 'extract_rows_argument_range', 'extract_rows_argument_srange',
               'extract_rows_argument_tuple', 'extract_rows_argument_array', 'extract_rows_argument_list',
-              'scale_in_place_with_other_databases_alive',
+              'scale_in_place_with_other_databases_alive', 'exact_formula_on_special_values', 'count_on_special_values',
+              'count_value_present', 'count_value_close', 'count_value_far', 'segmentation_on_special_values', 'segmentation_mapping_exact',
+              'segmentation_mapping_extra_close', 'remove_condition_with_tiny_nonzero_values',
               'bootstrap_individuals_after_rows_removed_from_panel', 'sequence_continues_on_extracted_database', 'remove_condition_with_negative_values',
               'add_column_after_rows_were_removed', 'panel_on_index_with_gaps', 'split_grouped', 'split_plain', 'flat_identical_auto',
               'flat_identical_declared', 'extract_rows_with_repeated_positions'):
